@@ -109,6 +109,67 @@ def r02_3_spill(ctx):
             ctx.ok("R02.3", construct, {"ops": [repr(x) for x in out if x is not other], "consulted": sorted(set(me.consulted))[:8]}, f.where)
     for key, (construct, problem, ops) in sorted(failures.items()):
         ctx.bad("R02.3", key, f"first failing configuration {construct}: {problem}; emitted {ops}", f.where, {"ops": ops})
+    # two re-entrant calls in one routine: callees of the same arity that differ in whether they leave a value
+    for k, n, version, ((aret, aabi), (bret, babi)) in itertools.product((1, 2), (0, 1, 2), (cover_v - 1, cover_v), itertools.permutations(kinds, 2)):
+        caller = _sub("caller", "none", False, 1)
+        ca, cb = _sub("calleeA", aret, aabi, n), _sub("calleeB", bret, babi, n)
+        stmts = {"A": Sym("callsub-A", methods={"getSubroutines": lambda ca=ca: [ca]}), "B": Sym("callsub-B", methods={"getSubroutines": lambda cb=cb: [cb]})}
+        other = Sym("other-stmt", methods={"getSubroutines": lambda: []})
+        mapping = {caller: [other, stmts["A"], other, stmts["B"], other], None: [other]}
+        slots = list(range(10, 10 + k))
+        env = {"version": version, "subroutineMapping": mapping, "subroutineGraph": {caller: {ca, cb}, ca: {caller}, cb: {caller}}, "localSlots": {caller: set(slots), ca: set(), cb: set(), None: set()}}
+
+        def oracle2(e, me, caller=caller, ca=ca, cb=cb):
+            t = u(e)
+            if t == "Op":
+                return OpS
+            if t == "TealType":
+                return TT
+            if isinstance(e, ast.Call) and u(e.func) == "findRecursionPoints":
+                return {caller: {ca, cb}, ca: set(), cb: set()}
+            raise Unknown()
+
+        run_function(f.node, env, oracle2, f.fq)
+        out = mapping[caller]
+        construct = f"spill-two-calls[{'cover' if version >= cover_v else 'dig'},slots={k},args={n},first={'abi-output' if aabi else aret},second={'abi-output' if babi else bret}]"
+        worlds += 1
+        problem = None
+        st = Stack(["B1"])
+        try:
+            for x in out:
+                if x is other:
+                    continue
+                if x is stmts["A"] or x is stmts["B"]:
+                    which = "A" if x is stmts["A"] else "B"
+                    leaves = (aret != "none" or aabi) if which == "A" else (bret != "none" or babi)
+                    if len(st.s) < n:
+                        raise StackError(f"callsub {which} finds {len(st.s)} value(s) for {n} argument(s)")
+                    if n:
+                        del st.s[len(st.s) - n:]
+                    for sl in slots:
+                        st.mem[sl] = "clobbered-by-reentry"
+                    if leaves:
+                        st.s.append(f"R{which}")
+                    continue
+                q.need(isinstance(x, OpVal), f"{f.fq}: non-op element {x!r} in the rewritten list")
+                if x is stmts.get("_never"):
+                    continue
+                st.apply(x.op, x.args)
+                # the routine consumes a call's result and pushes the next call's arguments between the calls
+            want_tail = [r for r, (rt, ab) in (("RA", (aret, aabi)), ("RB", (bret, babi))) if rt != "none" or ab]
+            bad = [sl for sl in slots if st.mem.get(sl, ("init", sl)) != ("init", sl)]
+            if bad:
+                problem = f"local slot(s) {bad} hold {[st.mem[sl] for sl in bad]} after the calls instead of their value before"
+            elif [v for v in st.s if isinstance(v, str) and v.startswith("R")] != want_tail or st.s[0] != "B1":
+                problem = f"stack after both calls is {st.s}; the caller's value B1 must be at the bottom and the results {want_tail} above it"
+        except StackError as e:
+            problem = str(e)
+        if n > 0:
+            continue  # with arguments the caller's own pushes between the calls are not modelled here; covered by the single-call worlds
+        if problem:
+            ctx.bad("R02.3", construct, f"{problem}; emitted {[repr(x) for x in out if x is not other]}", f.where)
+        else:
+            ctx.ok("R02.3", construct, {"ops": [repr(x) for x in out if x is not other]}, f.where)
     ctx.note_worlds = worlds
     ctx.require_min("R02.3", 100)
 
